@@ -229,6 +229,7 @@ def body_graph(cube, **kw):
     link, dval, ana, att, noasset = bool(kw['l']), pick(kw['d'], [None, 1.0, 0.3]), bool(kw['an']), bool(kw['at']), bool(kw['na'])
     rmn = bool(kw['rmn']) if 'rmn' in kw else False
     twice = bool(kw['tw']) if 'tw' in kw else False
+    cyc = bool(kw['cyc']) if 'cyc' in kw else False
     with notrace(), reclimit():
         ing = install()
         DB.clear()
@@ -251,6 +252,11 @@ def body_graph(cube, **kw):
             x = AttackGraphNode(type='or', name='loose')
             g.add_node(x)
             g.nodes[0].children.append(x); x.parents.append(g.nodes[0])
+        if cyc:
+            # two attack steps that lead to each other (srv:a -> srv:c exists; add srv:c -> srv:a) and a self-loop
+            na, nc = g.get_node_by_full_name('srv:a'), g.get_node_by_full_name('srv:c')
+            nc.children.append(na); na.parents.append(nc)
+            nc.children.append(nc); nc.parents.append(nc)
         if rmn:
             g.remove_node(g.nodes[1])        # node ids are no longer 0..n-1 in list order
         if twice:
@@ -303,9 +309,9 @@ def queries(tier):
           Query(name='twin', body=body_twin, params=[B('b0'), B('b1'), B('b2'), B('b3'), I('pa', 0, 5), I('pr', 0, 5)], pre=['pa == pr'], timeout=400,
                 witnesses=[({}, {'b0': True, 'b1': True, 'b2': True, 'b3': True, 'pa': 2, 'pr': 2})],
                 bound='language L_TWIN (associations Holds and Carries share both field names): every subset of 4 links over 6 assets, exported and read back'),
-          Query(name='graph', body=body_graph, params=[B('l'), I('d', 0, 2), B('an'), B('at'), B('na'), B('rmn'), B('tw')], timeout=400,
-                witnesses=[({}, {'l': True, 'd': 1, 'an': True, 'at': True, 'na': True, 'rmn': True, 'tw': True})],
-                bound='attack graph of a 2-asset L_MINI model (link, defense value, analysis, attacker, an extra node without asset, a node removed so that ids are not dense; exported once, or twice with a state change in between): one database node per '
+          Query(name='graph', body=body_graph, params=[B('l'), I('d', 0, 2), B('an'), B('at'), B('na'), B('rmn'), B('tw'), B('cyc')], timeout=400,
+                witnesses=[({}, {'l': True, 'd': 1, 'an': True, 'at': True, 'na': True, 'rmn': True, 'tw': True, 'cyc': True})],
+                bound='attack graph of a 2-asset L_MINI model (link, defense value, analysis, attacker, an extra node without asset, a node removed so that ids are not dense; two steps leading to each other plus a self-loop; exported once, or twice with a state change in between): one database node per '
                       'attack step with its attributes, one relationship per edge')]
     return qs
 
